@@ -49,9 +49,9 @@ type c04Report struct {
 }
 
 type c04Sig struct {
-	sig          action.Signature
+	sig           action.Signature
 	key, by, over int
-	algOk        bool
+	algOk         bool
 }
 
 func c04VB(r *rand.Rand, n int, outDir string, rep *c04Report) {
@@ -216,7 +216,15 @@ func c04Main(args []string) int {
 			kr.Mutants = append(kr.Mutants, c04Mut{Name: m.Name, Class: m.Class, Check: c.Code, Tx: hx(m.Tx),
 				Changed: !bytes.Equal(decodeSigned(m.Tx).RawBytes(), baseRaw)})
 		}
-		// the mutants delivered directly in a block (a byzantine proposer), then the base
+		// wire-level mutants, each right after the genuine transaction on the same connection
+		wires := wireMutants(base)
+		for _, m := range wires {
+			l.Rep.CheckTx(base)
+			c := l.Rep.CheckTx(m.Tx)
+			kr.Mutants = append(kr.Mutants, c04Mut{Name: m.Name, Class: m.Class, Check: c.Code, Tx: hx(m.Tx), Changed: true})
+		}
+		// the mutants delivered directly in a block (a byzantine proposer), then the base, then the
+		// wire-level mutants (the genuine transaction is the previous request of the connection)
 		in := &BlockIn{Absent: map[int]bool{}}
 		l.Rep.BeginBlock(in)
 		for i, m := range muts {
@@ -225,6 +233,10 @@ func c04Main(args []string) int {
 		}
 		res := l.Rep.DeliverTx(base)
 		kr.BaseDeliver = res.Code
+		for i, m := range wires {
+			res := l.Rep.DeliverTx(m.Tx)
+			kr.Mutants[len(muts)+i].Deliver = res.Code
+		}
 		l.Rep.EndBlock()
 		l.Rep.Commit()
 		l.Rep.Close()
